@@ -117,9 +117,9 @@ type c13Params struct {
 }
 
 type c13Inst struct {
-	s    *vrt.Sched
-	y    *c13Sys
-	p    c13Params
+	s     *vrt.Sched
+	y     *c13Sys
+	p     c13Params
 	out   string
 	held  *lbp.VHeld
 	added bool
@@ -258,7 +258,15 @@ func TestVerifC13H(t *testing.T) {
 	}
 	for _, n := range sizes {
 		if vh.MyShard(i) {
-			c13Deployment(r, n)
+			c13Deployment(r, n, 0)
+		}
+		i++
+	}
+	// a long-lived process: the deployment is small, but many backend names have come and gone
+	// through the admin API before (pods that are replaced get new names)
+	for _, nc := range [][2]int{{3, 10}, {3, 998}, {3, 1100}, {101, 950}} {
+		if vh.MyShard(i) {
+			c13Deployment(r, nc[0], nc[1])
 		}
 		i++
 	}
@@ -267,11 +275,28 @@ func TestVerifC13H(t *testing.T) {
 // c13Deployment: a pool of n backends under round_robin; every backend is sent requests of
 // three kinds (ok, 500, 404) in turn; the published numbers are audited at the end and after
 // the first round.
-func c13Deployment(r *vres.Report, n int) {
+//
+// churn > 0: that many other backends (distinct names) were registered and removed again, each
+// having served one request, before the deployment's own requests.
+func c13Deployment(r *vres.Report, n, churn int) {
 	start := time.Now()
 	var evals int64
 	vh.RunSeq(r, "C13/sequential", func(s *vrt.Sched) {
 		y := newC13SysN(s, "round_robin", n, false, false)
+		for i := 0; i < churn; i++ {
+			name := fmt.Sprintf("pod%04d", i)
+			if err := y.k.LB().AddBackend(config.BackendConfig{Name: name, Address: "http://" + name + ".test:80"}); err != nil {
+				vh.ToolError("add: %v", err)
+			}
+			y.k.AdoptAll()
+			for k := 0; k <= n; k++ { // one full round: the newcomer is served once
+				y.issued++
+				y.k.RequestMode("10.0.0.1", "ok")
+			}
+			y.k.LB().RemoveBackend(name)
+			y.k.Forget(name)
+			evals += int64(n) + 3
+		}
 		for round, mode := range []string{"ok", "404", "500"} {
 			for k := 0; k < n; k++ {
 				y.issued++
@@ -279,12 +304,12 @@ func c13Deployment(r *vres.Report, n int) {
 				evals++
 			}
 			if key, w := y.audit(map[string]int{}); key != "" {
-				r.Violate(key+"/deployment-size", fmt.Sprintf("round_robin pool of %d backends, after round %d (%d requests answered %s, one per backend): %s", n, round+1, n, mode, w), n, map[string]interface{}{"engine": "H", "test": "TestVerifC13H", "deployment": n})
+				r.Violate(key+"/deployment-size", fmt.Sprintf("round_robin pool of %d backends"+map[bool]string{true: fmt.Sprintf(" in a process that has seen %d other backends come and go", churn)}[churn > 0]+", after round %d (%d requests answered %s, one per backend): %s", n, round+1, n, mode, w), n, map[string]interface{}{"engine": "H", "test": "TestVerifC13H", "deployment": n, "churn": churn})
 				return
 			}
 		}
 	})
-	r.AddScenario(vres.Scenario{Name: fmt.Sprintf("accounting-deployment-of-%d", n), Engine: "H", Executions: 1, States: 3, Transitions: evals, Outcomes: 1,
+	r.AddScenario(vres.Scenario{Name: fmt.Sprintf("accounting-deployment-of-%d%s", n, map[bool]string{true: fmt.Sprintf("-after-%d-names", churn)}[churn > 0]), Engine: "H", Executions: 1, States: 3, Transitions: evals, Outcomes: 1,
 		Bound: fmt.Sprintf("pool of %d backends (documented cap 1000), 3 rounds of one request per backend (ok, 404, 500), audit after each round", n), Exhaustive: true,
 		Extra: map[string]interface{}{"wall_s": time.Since(start).Seconds()}})
 }
